@@ -38,9 +38,11 @@ type errno uintptr
 
 func (e errno) Error() string { return "errno" }
 
-type extErr struct{}
+// extErr's Error method reads the receiver, as most error types do: calling it on the typed nil pointer
+// nilErrPtr panics, so the library must keep treating a nil pointer error as "no error" everywhere.
+type extErr struct{ msg string }
 
-func (*extErr) Error() string { return "extended" }
+func (e *extErr) Error() string { return e.msg }
 func (*extErr) Extensions() map[string]interface{} {
 	return map[string]interface{}{"code": "E", "n": 1}
 }
@@ -50,6 +52,9 @@ type node struct {
 	id   int
 	deep int
 }
+
+// underAPI marks a request context that came in through the apifu API (set by the HTTP and WebSocket entries).
+type underAPI struct{}
 
 type stringer struct{}
 
@@ -67,7 +72,7 @@ func (w *world) err() error {
 	case 2:
 		return errno(2)
 	case 3:
-		return &extErr{}
+		return &extErr{msg: "extended"}
 	case 4:
 		return fmt.Errorf("wrapped: %w", valErr{7})
 	default:
@@ -272,6 +277,14 @@ func buildSchema() (*graphql.Schema, error) {
 			"float": {Type: graphql.FloatType, Resolve: res(func(w *world, _ graphql.FieldContext) interface{} {
 				return hx.Pick(w.r, []interface{}{1.5, float32(2), 3, math.MaxFloat64})
 			})},
+			// resolved through apifu.Go when the request came in through the apifu API (HTTP or WebSocket entries)
+			"goInt": {Type: graphql.IntType, Resolve: res(func(w *world, ctx graphql.FieldContext) interface{} {
+				v := w.r.Intn(9)
+				if ctx.Context.Value(underAPI{}) != nil && w.r.Chance(3, 4) {
+					return apifu.Go(ctx.Context, func() (interface{}, error) { return v, nil })
+				}
+				return v
+			})},
 			"str":   {Type: graphql.StringType, Resolve: res(func(w *world, _ graphql.FieldContext) interface{} { return "s" })},
 			"strNN": {Type: nn(graphql.StringType), Resolve: res(func(w *world, _ graphql.FieldContext) interface{} { return "s" })},
 			"bool":  {Type: graphql.BooleanType, Resolve: res(func(w *world, _ graphql.FieldContext) interface{} { return w.r.Bool() })},
@@ -283,7 +296,8 @@ func buildSchema() (*graphql.Schema, error) {
 			})},
 			"custom": {Type: custom, Resolve: res(func(w *world, _ graphql.FieldContext) interface{} { return w.junk() })},
 			"dt": {Type: apifu.DateTimeType, Resolve: res(func(w *world, _ graphql.FieldContext) interface{} {
-				return hx.Pick(w.r, []interface{}{time.Unix(1, 5), time.Time{}, "x"})
+				far := time.Date(9999, 12, 31, 23, 59, 59, 0, time.UTC).Add(time.Hour)
+				return hx.Pick(w.r, []interface{}{time.Unix(1, 5), time.Time{}, "x", far, time.Date(-1, 1, 1, 0, 0, 0, 0, time.UTC), time.Date(20000, 1, 1, 0, 0, 0, 0, time.UTC), &far, (*time.Time)(nil), time.Unix(1, 5).In(time.FixedZone("odd", 3*3600+17))})
 			})},
 			"li": {Type: apifu.LongIntType, Resolve: res(func(w *world, _ graphql.FieldContext) interface{} {
 				return hx.Pick(w.r, []interface{}{int64(1) << 40, 3, int64(1) << 60})
@@ -399,6 +413,9 @@ var seedQueries = []string{
 	`subscription S { obj { int objNN { intNN } } }`,
 	`{ req(x: 1, y: [{b: "s"}]) r2: req(x: 2, y: []) }`,
 	`query($x: Int!, $y: [In!]!) { req(x: $x, y: $y) }`,
+	`{ goInt a: goInt obj { goInt b: goInt obj { goInt } } dt }`,
+	`mutation { goInt a: goInt obj { goInt } b: goInt }`,
+	`subscription { obj { goInt int a: goInt dt } }`,
 	`query($w: Boolean = false, $t: Boolean = true) { int @skip(if: $w) str @include(if: $t) obj @include(if: $w) { int @skip(if: $t) } ... @skip(if: $w) { float } ...F @include(if: $t) } fragment F on Query { id }`,
 	`query($n: Int) { firstFoos { edges { cursor node } totalCount pageInfo { hasNextPage } } foos(first: $n) { edges { node cursor } pageInfo { hasNextPage endCursor } } l: foos(last: 2) { edges { node } } }`,
 	`query($d: Boolean, $e: Boolean = true, $n: String = "Obj") { __type(name: $n) { fields(includeDeprecated: $d) { name isDeprecated } } c: __type(name: "Color") { enumValues(includeDeprecated: $e) { name deprecationReason } a: enumValues(includeDeprecated: null) { name } b: fields(includeDeprecated: null) { name } } }`,
